@@ -104,6 +104,13 @@ META.update({
 "C20c":dict(breaks="C20: TENSORS branch of VTKWriter flattens a d x d tensor row-major into the first d*d of 9 slots instead of embedding it in the top-left block",
   needs="a TENSORS field supplied as (n,2,2); 3x3 tensors (all existing tests), scalars and vectors are byte-identical"),
 })
+
+META.update({
+"C10":dict(breaks="C10: the hand-written JVP rules of sqrt/exp/log/pow_symm take their primal output from the undecorated symmetric_matrix_function instead of the decorated function: values and first derivatives unchanged, second derivatives go through raw autodiff of the eigensolver",
+  needs="a tangent (second derivative) at a state whose elastic right Cauchy-Green tensor is spherical (rest state, pure dilation, F = Fp / F = Fv after a history); distinct-eigenvalue states are unaffected, stresses and energies exact"),
+"C10b":dict(breaks="C10: HyperViscoelastic._energy_density wraps the viscous strain increment in jax.lax.stop_gradient ('the potential is stationary with respect to it'): stress exact, tangent uses the unrelaxed non-equilibrium stiffness",
+  needs="the single-branch viscoelastic model AND a check of the SECOND derivative of the energy AND a time step not negligible against the relaxation time (error ~ G_neq (dt/tau)/(1+dt/tau))"),
+})
 for pid in sys.argv[1:]:
     p='/verif/seeded/%s/meta.json'%pid
     if not os.path.exists(p): print('no meta for',pid); continue
